@@ -10,5 +10,6 @@ MaxRuns == 1
 RunFlags == {[ing |-> TRUE, ug |-> FALSE]}
 CleanOn == TRUE
 SameFiles == FALSE
+Crashes == FALSE
 Traces == <<>>
 ====
